@@ -409,6 +409,7 @@ func (vm *VM) run(fr *frame, b *ssa.BasicBlock) Value {
 				vm.set(fr, x, vm.selectStmt(fr, x))
 			case *ssa.SliceToArrayPointer:
 				s := vm.get(fr, x.X).(Slice)
+				s = vm.materialise(s, sizeof(x.X.Type().Underlying().(*types.Slice).Elem()))
 				n := int(x.Type().Underlying().(*types.Pointer).Elem().Underlying().(*types.Array).Len())
 				if s.len < n {
 					vm.goPanicf("slice to array pointer: length %d < %d", s.len, n)
@@ -644,6 +645,7 @@ func (vm *VM) convert(v Value, from, to types.Type) Value {
 			if sizeof(fu.(*types.Slice).Elem()) != 1 {
 				unsupported("%s to string", from)
 			}
+			x = vm.materialise(x, 1)
 			if x.len == 0 {
 				return Str{}
 			}
